@@ -210,6 +210,10 @@ func (it *Interp) Apply(op *Op) {
 		return
 	case "probe":
 		it.opProbe(op)
+	case "batchCall":
+		// Filter.Batch(rel...) is called and the Batch discarded (a filter used for batches earlier and for queries later)
+		f := it.M.Filters[op.F]
+		it.run(op, true, func(b *Backend) { _ = b.flt[op.F].Batch(b.rels(f.List(), op.QRels)) })
 	case "dump":
 		it.opDump(op)
 	case "loadSaved":
